@@ -12,8 +12,8 @@
 (*  - Eq is an equivalence relation, insensitive to labels, capacity and   *)
 (*    map insertion order, and agrees at top level and as a field          *)
 (*  - every single mutation is distinguished by Eq                         *)
-(*  - the implementation-shaped Compare satisfies the order laws and has   *)
-(*    the natural direction on single mutations                            *)
+(*  - (the order / equivalence laws of the implementation-shaped Compare   *)
+(*    and Equal are LEADS since the user-method defects were transcribed)  *)
 (*  - the implementation-shaped Hash depends only on the value             *)
 (*    (Identical => same hash)                                             *)
 (* LEADS (implementation-shaped layer vs abstract layer; printed, never a  *)
@@ -148,12 +148,22 @@ EqImplEquivalence == Pair =>
 HashImplFunction == Pair => (Identical(NoEnv, T, X(i), X(j)) => H(i) = H(j))
 
 -----------------------------------------------------------------------------
+\* the order / equivalence laws on the implementation-shaped layer itself (a lead when violated:
+\* e.g. the unchecked method call through a nil pointer breaks antisymmetry)
+ImplLawsHold ==
+  \A a, b \in N :
+    /\ C(a, b) \in {-1, 0, 1} /\ C(a, b) = 0 - C(b, a)
+    /\ (a = b => EI(a, b)) /\ EI(a, b) = EI(b, a)
+    /\ \A k \in N : ((C(a, b) <= 0 /\ C(b, k) <= 0) => C(a, k) <= 0) /\ ((EI(a, b) /\ EI(b, k)) => EI(a, k))
+    /\ (P[b].of = a /\ P[b].dir # "none" /\ ~EI(a, b)) => (C(a, b) = DirSign(P[b].dir) /\ C(b, a) = 0 - DirSign(P[b].dir))
+
 LeadKinds ==
   (IF \E a, b \in N : EI(a, b) # E(a, b) THEN " EqImpl#Eq" ELSE "") \o
   (IF \E a, b \in N : E(a, b) /\ H(a) # H(b) THEN " Eq-but-HashImpl-differs" ELSE "") \o
   (IF \E a, b \in N : EI(a, b) /\ ~E(a, b) /\ H(a) # H(b) THEN " EqImpl-not-Eq-and-HashImpl-differs" ELSE "") \o
   (IF \E a, b \in N : (C(a, b) = 0) # E(a, b) THEN " CmpImpl0#Eq" ELSE "") \o
-  (IF \E a, b \in N : (C(a, b) = 0) # EI(a, b) THEN " CmpImpl0#EqImpl" ELSE "")
+  (IF \E a, b \in N : (C(a, b) = 0) # EI(a, b) THEN " CmpImpl0#EqImpl" ELSE "") \o
+  (IF ~ImplLawsHold THEN " ImplLaws" ELSE "")
 
 Leads == First => (LeadKinds = "" \/ PrintT("LEAD " \o Cases[ti].id \o LeadKinds))
 =============================================================================
